@@ -382,3 +382,149 @@ func TestC12Independent(t *testing.T) {
 		}
 	})
 }
+
+// ---------------------------------------------------------------------------
+// Operands whose text form the documentation does not spell out (floats):
+// the reference cannot name the key, but PUT and REMOVE must agree on it.
+
+type c12FloatCase struct {
+	Keys  []*lib.Node `json:"keys"`  // float-valued key expressions
+	Extra []string    `json:"extra"` // plain text keys put alongside
+	Gone  []int       `json:"gone"`  // indexes into Keys that the REMOVE lists
+	Batch int         `json:"batch"`
+	Polls string      `json:"polls"`
+	Query string      `json:"query"`
+}
+
+func init() {
+	registerReplay("c12float", func(c *c12FloatCase) string { m, _ := checkC12Float(c); return m })
+}
+
+// checkC12Float: `put (e1,'v1'),..,(en,'vn'),('t1','x'),..` on an empty store,
+// then `remove ei,...` must leave exactly the pairs whose key PUT wrote for
+// the expressions that are not listed (one text per expression value: two
+// expressions of equal value name one key).
+func checkC12Float(c *c12FloatCase) (msg string, nontrivial bool) {
+	cfg := lib.Cfg{Mode: "row", Batch: c.Batch, Cache: true}
+	if cfg.Batch <= 0 {
+		cfg.Batch = 32
+	}
+	vals := make([]float64, len(c.Keys))
+	for i, e := range c.Keys {
+		v, err := lib.Eval(e, &lib.Env{})
+		f, ok := v.(float64)
+		if err != nil || !ok {
+			return "", false
+		}
+		vals[i] = f
+	}
+	put := &lib.Stmt{Kind: "put"}
+	for i, e := range c.Keys {
+		put.Pairs = append(put.Pairs, [2]*lib.Node{e.Clone(), lib.Str(fmt.Sprintf("v%d", i))})
+	}
+	for _, k := range c.Extra {
+		put.Pairs = append(put.Pairs, [2]*lib.Node{lib.Str(k), lib.Str("x")})
+	}
+	pq := put.Render()
+	in := lib.NewInstr(lib.NewStore(nil))
+	b := lib.Build(pq, in, cfg)
+	if b.Panic != "" {
+		return fmt.Sprintf("planning %q panicked: %s", pq, b.Panic), true
+	}
+	if b.BuildErr != nil {
+		return "", false
+	}
+	lib.SetGlobals(cfg)
+	if _, perr, pan := pollPlan(b.Plan, "N"); pan != "" {
+		return fmt.Sprintf("executing %q panicked: %s", pq, pan), true
+	} else if perr != nil {
+		return fmt.Sprintf("executing %q failed: %v", pq, perr), true
+	}
+	calls := in.Calls()
+	if len(calls) != 1 || len(calls[0].Keys) != 2*len(put.Pairs) {
+		return fmt.Sprintf("%q should issue one write of %d pairs, storage saw %+v", pq, len(put.Pairs), calls), true
+	}
+	written := make([]string, len(c.Keys)) // key text PUT chose for expression i
+	for i := range c.Keys {
+		written[i] = calls[0].Keys[2*i]
+	}
+	// equal values must have been written under one key
+	for i := range vals {
+		for j := range vals {
+			if vals[i] == vals[j] && written[i] != written[j] {
+				return fmt.Sprintf("%q wrote the values %v and %v under the keys %q and %q", pq, vals[i], vals[j], written[i], written[j]), true
+			}
+		}
+	}
+	after := in.S.Pairs()
+	rm := &lib.Stmt{Kind: "remove"}
+	gone := map[string]bool{}
+	for _, gi := range c.Gone {
+		if gi < 0 || gi >= len(c.Keys) {
+			continue
+		}
+		rm.Keys = append(rm.Keys, c.Keys[gi].Clone())
+		gone[written[gi]] = true
+	}
+	if len(rm.Keys) == 0 {
+		return "", false
+	}
+	rq := rm.Render()
+	c.Query = pq + "; " + rq
+	in2 := lib.NewInstr(in.S)
+	b2 := lib.Build(rq, in2, cfg)
+	if b2.Panic != "" {
+		return fmt.Sprintf("planning %q panicked: %s", rq, b2.Panic), true
+	}
+	if b2.BuildErr != nil {
+		return fmt.Sprintf("%q is accepted but %q is refused: %v", pq, rq, b2.BuildErr), true
+	}
+	lib.SetGlobals(cfg)
+	polls := c.Polls
+	if polls == "" {
+		polls = "N"
+	}
+	if _, perr, pan := pollPlan(b2.Plan, polls); pan != "" {
+		return fmt.Sprintf("executing %q panicked: %s", rq, pan), true
+	} else if perr != nil {
+		return fmt.Sprintf("executing %q failed: %v", rq, perr), true
+	}
+	var want []lib.Pair
+	for _, p := range after {
+		if !gone[p.K] {
+			want = append(want, p)
+		}
+	}
+	if got, w := fmt.Sprint(in2.S.Pairs()), fmt.Sprint(want); got != w {
+		return fmt.Sprintf("after %q the store is %v; %q should leave %s, the store is %s (storage calls %+v)", pq, after, rq, w, got, in2.Calls()), true
+	}
+	return "", len(want) > 0
+}
+
+// TestC12FloatKeys: float-valued key expressions in PUT and REMOVE.
+func TestC12FloatKeys(t *testing.T) {
+	rapid.Check(t, func(rt *rapid.T) {
+		kc := &lib.GenCtx{Kind: lib.KWord, NoKey: true, NoValue: true}
+		n := rapid.IntRange(1, 4).Draw(rt, "nkeys")
+		c := &c12FloatCase{Batch: rapid.SampledFrom([]int{1, 2, 32}).Draw(rt, "batch"), Polls: rapid.SampledFrom([]string{"N", "B", "NN", "BN"}).Draw(rt, "polls")}
+		for i := 0; i < n; i++ {
+			c.Keys = append(c.Keys, kc.GenFloat(rt, rapid.IntRange(0, 2).Draw(rt, "depth")))
+		}
+		for i := rapid.IntRange(0, 2).Draw(rt, "nextra"); i > 0; i-- {
+			c.Extra = append(c.Extra, rapid.SampledFrom([]string{"t", "1.5", "1.500000", "2", "k"}).Draw(rt, "extra"))
+		}
+		for i := 0; i < n; i++ {
+			if rapid.Bool().Draw(rt, "gone") {
+				c.Gone = append(c.Gone, i)
+			}
+		}
+		lib.Journal("C12", "c12float", c)
+		msg, nt := checkC12Float(c)
+		lib.Stats.Case(nt, c.Query+fmt.Sprint(c.Batch, c.Polls), []string{fmt.Sprintf("nkeys=%d", n)}, func() any {
+			return map[string]any{"statements": c.Query}
+		})
+		if msg != "" {
+			fail(rt, "C12", "c12float", msg, c)
+		}
+	})
+}
